@@ -218,7 +218,7 @@ PROPS["C06"] = dict(
     stages=[dict(name="gen", kind="gen", module="DiscDist.tla", cfg="DiscDist_gen.cfg",
                  consts=dict(BinN={"quick": "BinNQuick", "thorough": "BinNThorough"}, EdgeMaxN=8,
                              BinP={"quick": "BinPQuick", "thorough": "BinPThorough"},
-                             HypN={"quick": "HypNQuick", "thorough": "HypNThorough"}), timeout={"quick": 600, "thorough": 7000})],
+                             HypN={"quick": "HypNQuick", "thorough": "HypNThorough"}, WalkMax={"quick": 260, "thorough": 1000}), timeout={"quick": 600, "thorough": 7000})],
 )
 
 PROPS["C11"] = dict(
